@@ -4,7 +4,8 @@ import os
 HERE = os.path.dirname(os.path.abspath(__file__))
 VARIANTS = ["IgnoreUnknownIdx", "UnlinkOnDeregister", "ResumeClearsBackoff", "IncBeforeSend", "NoClearOnLimit", "ResumeSkipsAcceptAll",
             "BackoffNeverReregisters", "RoundRobinStuck", "ConnErrIsFatal", "WakeSkipsAcceptAll", "PauseKeepsRegistered",
-            "RejoinPausedNoAvail", "ResetSeparate", "JumpToFirstAvailable", "ReportOnlyIfBitSet", "ResendWithoutCheck"]
+            "RejoinPausedNoAvail", "ResetSeparate", "JumpToFirstAvailable", "ReportOnlyIfBitSet", "ResendWithoutCheck",
+            "RejoinAtIndex", "DropPausePair", "TrackRepeat"]
 DESIGN = {"IgnoreUnknownIdx": "TRUE", "ResumeClearsBackoff": "TRUE"}
 INVS = ("TypeOK C01_Conservation C01_ServedOnce C01_NoSilentDrop C02_Bound C02_NoForcedSend C03_NoLostWake "
         "C04_RoundRobin C04_BitsTrueWhenCalm C05_ListenerLive C05_UdsReachable C05_ConnErrNoDelay C05_TimerHasTimeout C08_NoPanic "
@@ -91,4 +92,9 @@ cfg("NEG_ResetSeparate", 2, 1, 1, [], 4, flip=["ResetSeparate"], invs="C03_NoLos
 cfg("NEG_JumpToFirstAvailable", 3, 1, 1, [], 5, flip=["JumpToFirstAvailable"], invs="")
 cfg("NEG_ReportOnlyIfBitSet", 2, 1, 1, [], 4, faults=2, flip=["ReportOnlyIfBitSet"], invs="C08_NoLostIndex")
 cfg("NEG_ResendWithoutCheck", 3, 1, 1, [], 4, faults=1, flip=["ResendWithoutCheck"], invs="")
+# the rotation cursor across a fault and a rejoin (ghosts lastD / rer follow the dispatches): design holds, insertion at
+# the index position without adjusting the cursor repeats a worker
+cfg("MC_fault_rejoin_w3", 3, 3, 1, [], 5, faults=1, flip=["TrackRepeat"])
+cfg("NEG_RejoinAtIndex", 3, 3, 1, [], 5, faults=1, flip=["RejoinAtIndex", "TrackRepeat"], invs="", props="StepNoRepeat")
+cfg("NEG_DropPausePair", 1, 1, 1, [], 1, cmds=3, flip=["DropPausePair"], invs="", props="StepCmdEffect")
 print("configs written")
